@@ -15,8 +15,7 @@
   enthalpy intervals, duty-weighted resistances) is decided by the oracle, which recomputes it
   independently from the zone's streams and utility duties.
 -/
-import OPModel.Model.Costing
-import OPModel.Proofs.HXReal
+import OPModel.Proofs.CostingLemmas
 import OPModel.Properties.C20
 import OPModel.Drive.C15
 import Mathlib.Analysis.SpecialFunctions.Pow.Real
@@ -27,13 +26,6 @@ import Mathlib.Tactic.Linarith
 
 namespace OP.C15
 open OP OP.HX OP.Costing Real
-
-theorem powPos_real (x c : ℝ) (hx : 0 < x) : powPos realOps x c = x ^ c := by
-  show Real.exp (c * Real.log x) = x ^ c
-  rw [Real.rpow_def_of_pos hx, mul_comm]
-
-theorem powPos_nat (x : ℝ) (hx : 0 < x) (n : ℕ) : powPos realOps x (n : ℝ) = x ^ n := by
-  rw [powPos_real x _ hx, Real.rpow_natCast]
 
 /-- **The capital-recovery factor annualises exactly**: its discounted annuities sum to one. -/
 theorem crf_annuities_sum_to_one (i : ℝ) (hi : 0 < i) (n : ℕ) (hn : 1 ≤ n) :
@@ -86,23 +78,12 @@ theorem capital_cost_strict_mono (A A' N a b c : ℝ) (hA : 0 < A) (hAA : A < A'
   have := mul_lt_mul_of_pos_left h1 hb
   exact mul_lt_mul_of_pos_left (by linarith) hN
 
-theorem crf_pos (i : ℝ) (hi : 0 < i) (n : ℕ) (hn : 1 ≤ n) : 0 < crf realOps i (n : ℝ) := by
-  have h1 : (0 : ℝ) < 1 + i := by linarith
-  show 0 < i * powPos realOps (1 + i) n / (powPos realOps (1 + i) n - 1)
-  rw [powPos_nat _ h1]
-  have hpow : (1 : ℝ) < (1 + i) ^ n := one_lt_pow₀ (by linarith) (by omega)
-  exact div_pos (mul_pos hi (by linarith)) (by linarith)
-
 /-- **The annualised cost does not decrease with area.** -/
 theorem annual_cost_mono (A A' N a b c i : ℝ) (n : ℕ) (hA : 0 < A) (hAA : A ≤ A') (hN : 0 < N) (hb : 0 ≤ b) (hc : 0 ≤ c)
     (hi : 0 < i) (hn : 1 ≤ n) :
     annualCost realOps (capitalCost realOps A N a b c) i n ≤ annualCost realOps (capitalCost realOps A' N a b c) i n := by
   show capitalCost realOps A N a b c * crf realOps i n ≤ capitalCost realOps A' N a b c * crf realOps i n
   exact mul_le_mul_of_nonneg_right (capital_cost_mono A A' N a b c hA hAA hN hb hc) (le_of_lt (crf_pos i hi n hn))
-
-theorem areaTerm_real (Q R L : ℝ) (hR : R ≠ 0) (hL : L ≠ 0) : areaTerm realOps Q R L = Q * R / L := by
-  show Q / (1 / R * L) = Q * R / L
-  field_simp
 
 /-- **Every enthalpy interval adds a positive area.** -/
 theorem area_term_pos (Q R L : ℝ) (hQ : 0 < Q) (hR : 0 < R) (hL : 0 < L) : 0 < areaTerm realOps Q R L := by
